@@ -253,6 +253,9 @@ fn discard_case(ctx: &WorkerCtx, rep: &mut WorkerReport, case_seed: u64) {
 }
 
 pub fn worker(ctx: &WorkerCtx) -> WorkerReport {
+    if ctx.shard == 4 {
+        FORCE_HUGE.store(true, std::sync::atomic::Ordering::Relaxed);
+    }
     let (net, traces) = net_for_shard(ctx.shard);
     crate::setup_env(net, traces);
     let mut rep = WorkerReport::default();
